@@ -307,21 +307,38 @@ def narrowing(ctx, repo):
             chain = enclosing_ifs(par)
             tests = [(ast.unparse(i.test), br) for i, br in chain]
             under_float = any("is_float_dtype" in tt and br == "body" for tt, br in tests)
+            series = ast.unparse(n.func.value)
+
+            def data_tests(tests_):
+                """enclosing tests (true branch) that look at the values of the series, not only at its dtype"""
+                pure_dtype = ("is_float_dtype", "is_integer_dtype", "is_bool_dtype", "is_object_dtype", "is_datetime64_any_dtype")
+                return [tt for tt, br in tests_ if br == "body" and series in tt and not any(tt in (f"{f}({series})", f"not {f}({series})") for f in pure_dtype)]
+
             if t in ("int", "np.int64", "numpy.int64", "'int64'"):
                 nconv += 1
                 if under_float:
-                    ok = any(br == "body" and ("array_equal" in tt or "==" in tt) and f".astype({t})" in tt for tt, br in tests)
-                    ctx.ob("F3", ok=ok, distinct="float->int")
-                    if not ok:
-                        ctx.violation("F3", "float->int|unguarded", gt.loc(par), f"`{ast.unparse(par)}` converts a float series to int without being dominated by the test that the cast leaves every value unchanged: decimals are truncated silently")
+                    dts = data_tests(tests)
+                    recognised = [tt for tt in dts if (f"{series}.astype(" in tt and ("array_equal" in tt or "==" in tt or "equals" in tt)) or "% 1" in tt or "is_integer" in tt or "mod(" in tt]
+                    if not dts:
+                        ctx.ob("F3", ok=False, distinct="float->int")
+                        ctx.violation("F3", "float->int|unguarded", gt.loc(par), f"`{ast.unparse(par)}` converts a float series to int without being dominated by any test on its values: decimals are truncated silently")
+                    elif not recognised:
+                        raise AnalysisError(f"float->int conversion is guarded by `{dts[0][:80]}`, an idiom F3 does not know; re-read needed")
+                    else:
+                        ctx.ob("F3", ok=True, distinct="float->int")
                 else:
                     ctx.ob("F3", ok=True, distinct="other->int")
             elif t == "bool":
                 nconv += 1
-                ok = any(br == "body" and ("not in [1, 0]" in tt or "not in [0, 1]" in tt or "isin([0, 1])" in tt or "isin([1, 0])" in tt) for tt, br in tests)
-                ctx.ob("F3", ok=ok, distinct=("->bool", tuple(x[0][:20] for x in tests)))
-                if not ok:
-                    ctx.violation("F3", "->bool|unguarded", gt.loc(par), f"`{ast.unparse(par)}` converts to bool without being dominated by the test that all values are 0 or 1")
+                dts = data_tests(tests)
+                recognised = [tt for tt in dts if _mentions_only_0_1(tt)]
+                if not dts:
+                    ctx.ob("F3", ok=False, distinct=("->bool", par.lineno))
+                    ctx.violation("F3", "->bool|unguarded", gt.loc(par), f"`{ast.unparse(par)}` converts to bool without being dominated by a test that all values are 0 or 1")
+                elif not recognised:
+                    raise AnalysisError(f"->bool conversion is guarded by `{dts[0][:80]}`, an idiom F3 does not know; re-read needed")
+                else:
+                    ctx.ob("F3", ok=True, distinct=("->bool", par.lineno))
             elif t == "float":
                 nconv += 1
                 ok = any("is_bool_dtype" in tt and br == "orelse" for tt, br in tests)
@@ -346,6 +363,17 @@ def narrowing(ctx, repo):
     ctx.ob("F3", ok=ok, distinct="unsupported-type")
     if not ok:
         ctx.violation("F3", "unsupported-type|accepted", gt.loc(fd), "an unsupported internal type no longer raises")
+
+
+def _mentions_only_0_1(test_text):
+    """the test compares against the literals 0 and 1 (and no other number)"""
+    try:
+        t = ast.parse(test_text, mode="eval")
+    except SyntaxError:
+        return False
+    nums = {c.value for c in ast.walk(t) if isinstance(c, ast.Constant) and isinstance(c.value, (int, float)) and not isinstance(c.value, bool)}
+    # `len([...]) == 0` contributes a 0; accept {0, 1}
+    return {0, 1} <= {int(x) for x in nums if float(x).is_integer()} and all(float(x) in (0.0, 1.0) for x in nums)
 
 
 def announced(ctx, repo, itf):
